@@ -284,6 +284,12 @@ theorem toyB96Laws : B96Laws toyB96 where
       | succ n ih => intro v; simp [natLE, ih]
     exact this 32 v
 
+/-- inputs of the bign96 examples in PropsB96.lean: the private key 5, the hash value 2^192 - 1, a tape whose
+first two draws (0 and 2^192 - 1) are rejected by zzRandNZMod and whose third draw is 7 -/
+def priv5 : Bytes := natLE 24 5
+def hFF : Bytes := List.replicate 24 255
+def tape7 : Bytes := zeros 24 ++ List.replicate 24 255 ++ natLE 24 7
+
 /-- the hypothesis structures are satisfiable -/
 theorem laws_satisfiable :
     (∃ E : ECtx (ZMod 65521), ELaws E) ∧ (∃ C : G12 (ZMod 65521), G12Laws C) ∧
